@@ -27,8 +27,9 @@ class Lit:
     """A decimal literal.  braced = written `{...}` in an expression: parsed PARSE_NO_MIGRATE, so it
     keeps its precision and teaches the pool nothing; a bare literal (and a posting amount) has
     keep = 0 and raises its commodity's display precision to its own number of decimals."""
-    def __init__(self, digits, decimals, sym, braced=False):
+    def __init__(self, digits, decimals, sym, braced=False, marks=False):
         self.digits, self.decimals, self.sym, self.braced = digits, decimals, sym, braced
+        self.marks = marks          # written with thousands marks (1,250 / 1,234,567.50): the same decimal number
         self.keep = braced
         self.value = F(int(digits), 10 ** decimals)
 
@@ -37,6 +38,9 @@ class Lit:
         if self.decimals:
             s = s.rjust(self.decimals + 1, '0')
             s = s[:-self.decimals] + '.' + s[-self.decimals:]
+        if self.marks:
+            ip, dot, fp = s.partition('.')
+            s = re.sub(r'(?<=\d)(?=(\d{3})+$)', ',', ip) + dot + fp
         if self.sym is not None:
             name, side = self.sym
             s = (name + s) if side == 'pre' else (s + ' ' + name)
@@ -54,7 +58,12 @@ def gen_lit(rng, syms, big=False):
     if rng.random() < 0.03:
         digits = '0'
     sym = rng.choice(syms) if rng.random() < 0.6 else None
-    return ('lit', Lit(digits, dec, sym, braced=rng.random() < 0.25))
+    marks = False
+    if rng.random() < 0.12:
+        # thousands marks, with and without a decimal part: four or more integer digits
+        digits = str(rng.randrange(1, 10)) + ''.join(rng.choice('0123456789') for _ in range(dec + rng.choice([3, 3, 4, 6, 8])))
+        marks = True
+    return ('lit', Lit(digits, dec, sym, braced=rng.random() < 0.25, marks=marks))
 
 
 def gen_directed(rng, syms):
